@@ -6,7 +6,8 @@ namespace Driver.Sel
       "params":[{"short":"f"|"","long":"flag"|"","val":bool}],"pos_arg","delayed","utd"}],
       "args":[..], "default":null|[..], "single":bool, "obs":{"exit","processed","started","ran"}?}`
     or `{"model":"sel","op":"glob","pattern":..,"names":[..]}`.
-    answer: `deps` (task_dep after `TaskControl.__init__`: `[name, expanded, final]`), `head` / `spec` plans
+    answer: `deps` (task_dep after `TaskControl.__init__`: `[name, expanded, final]`), `head` (= `spec` since dcfe778) and
+    `pinned` (before dcfe778) plans
     (`sel`: `["ok",[..]] | ["notFound",a] | ["optErr"] | ["fuel"]`, `closure`, `closed`, `task_dep`), `reinit`, `pos`,
     `pinned_single`, and `monitor` (failed clauses of the property on `obs`) when `obs` is given.
     Sets are returned as lists in model order; the harness sorts. -/
@@ -59,7 +60,8 @@ def handle (j : Json) : Json :=
       | some a => pfPos pts (a.length + 1) [] a
     let base : List (String × Json) := [
       ("deps", mkArr (ts.map fun t => mkArr [ofTok t.name, ofToks (expandWild ts t), ofToks (finalDeps ts t)])),
-      ("head", planJson (planGen ts true args dflt single)),
+      ("head", planJson (planGen ts false args dflt single)),
+      ("pinned", planJson (planGen ts true args dflt single)),
       ("spec", planJson (planGen ts false args dflt single)),
       ("reinit", Json.bool reinit),
       ("pos", mkArr (pos.map fun (n, vs) => mkArr [ofTok n, ofToks vs])),
@@ -69,7 +71,7 @@ def handle (j : Json) : Json :=
         let o := jobj j "obs"
         let obs : Obs := { exit := jnat o "exit", processed := toks o "processed", started := toks o "started",
                            ran := toks o "ran" }
-        let chunked := match planGen ts true args dflt single with
+        let chunked := match planGen ts false args dflt single with
           | .ok p => chunkedB p.tasks p.sel obs.started
           | .error _ => true
         [("monitor", ofStrs (monitor ts args dflt single obs)), ("chunked", Json.bool chunked)]
